@@ -14,8 +14,8 @@
 (* At most MaxShape error replies have a shape other than the plain well-formed one  *)
 (* (ErShapes: no children, no <error/>, foreign namespace, empty, undecodable, ...;   *)
 (* see MUC!WellFormedShapes / MalformedShapes); OnlyShaped: only scripts with such a *)
-(* reply are written (the others come from another emission).  WithTail: every script *)
-(* also written with a second, well-formed exchange appended - the call still open   *)
+(* reply are written (the others come from another emission).  WithTail: each script *)
+(* is also written with a second, well-formed exchange appended: the call still open *)
 (* is answered by the self-presence it waits for, otherwise the client joins (again) *)
 (* and the room admits it: an exchange that must succeed, so that a serve loop which *)
 (* stopped after the earlier reply shows.                                            *)
